@@ -1205,6 +1205,8 @@ class Typer:
         known = [a for a in (fv or ()) if isinstance(a, tuple) and a[0] in ("gfunc", "meth", "class", "nodemeth")]
         if cbname in T.CALLBACKS and (not known or (fv is not None and any(not (isinstance(a, tuple) and a[0] in ("gfunc", "meth", "class", "nodemeth")) and a != "none" for a in fv))):
             typ = TOP
+            if cbname == "nodecls":
+                typ = NODE  # the node class handed to an importer: calling it builds a tree node
             if cbname in T.CALLBACKS_SEQ_PRESERVING:
                 a0 = self._arg(argv, 0)
                 if a0 is not None and not is_top(a0):
